@@ -34,6 +34,6 @@ while stack and n < maxp:
     if r.outcome == 'panic': panics.setdefault(r.msg, r.inputs)
     if os.environ.get('V'): print(r.outcome, r.msg, r.inputs, r.obs)
 print(f'paths {n} left {len(stack)} violations {len(viol)} time {time.time()-t0:.1f}s queries {E.nqueries} qtime {E.qtime:.1f}s covers {sorted(covers)}')
-for g, p in list(gaps.items())[:10]: print('GAP', g)
+for g, p in list(gaps.items())[:10]: print('GAP', g, ('GAPDEC ' + ''.join('1' if d else '0' for d in p)) if os.environ.get('DEC') else '')
 for m, i in list(panics.items())[:10]: print('PANIC', m, i)
 for v in viol[:10]: print('VIOL', v[0], v[1], 'DEC', ''.join('1' if d else '0' for d in v[2]) if os.environ.get('DEC') else '')
